@@ -439,6 +439,60 @@ def graze(A, B, rng, delta_lat, ks=None, extra_dirs=None):
     return Body(B.spec, B.M, B.t + (k * delta_lat - g) * u, B.margin, B.cls, R=(B.R if getattr(B, "general", False) else None)), u
 
 
+def near_touch(A, B, gap):
+    """B moved along the witness direction of the pair so that the two bodies are `gap` apart (gap > 0) - the placement is
+    derived from the library's own distance query, which only serves as a scene generator here; None if the pair overlaps"""
+    from distance3d import gjk
+    try:
+        d, a, b, _ = gjk.gjk_distance_jolt(A.build(IDENT), B.build(IDENT), max_distance_squared=float("inf"))
+    except Exception:
+        return None
+    if not (d > 1e-3) or a is None:
+        return None
+    n = (np.asarray(a, dtype=float) - np.asarray(b, dtype=float)) / float(d)
+    return Body(B.spec, B.M, B.t + (float(d) - gap) * n, B.margin, B.cls, R=(B.R if getattr(B, "general", False) else None))
+
+
+def vertex_to_side_scenes(rng, n):
+    """a vertex of a generally rotated box / hull next to the interior of a generator of a cone (base at the frame origin, tip
+    at z = h) or of the side of a cylinder, 0.05 .. 0.6 units away: the apex / rim vertices found first stay in the simplex for
+    many iterations while the iterative algorithms home in on the curved side"""
+    poly, rnd = spec_pool()
+    curved = [s for s in rnd if s["kind"] in ("cone", "cylinder")]
+    out = []
+    for _ in range(n):
+        sb = rng.choice(curved)
+        M, _ = rng.choice(S.CUBE)
+        Bc = Body(sb, M, [rng.randint(-3, 3) for _ in range(3)], 0, None)
+        phi = rng.uniform(0, 2 * math.pi)
+        r, h = float(sb["r"]), float(sb["h"])
+        if sb["kind"] == "cone":
+            f = rng.uniform(0.25, 0.75)
+            p = np.array([r * (1 - f) * math.cos(phi), r * (1 - f) * math.sin(phi), f * h])
+            nrm = np.array([h * math.cos(phi), h * math.sin(phi), r]) / math.hypot(h, r)
+        else:
+            p = np.array([r * math.cos(phi), r * math.sin(phi), rng.uniform(-0.3, 0.3) * h])
+            nrm = np.array([math.cos(phi), math.sin(phi), 0.0])
+        pw, nw = Bc.t + Bc.R @ p, Bc.R @ nrm
+        A = Body(rng.choice([s for s in poly if s["kind"] in ("hull", "box")]), np.eye(3, dtype=int), [0.0, 0.0, 0.0], 0, None,
+                 R=S.random_rotation(rng))
+        # translate A so that its lowest vertex along the outward normal sits a small gap above the side point
+        V = _vertices_of(A)
+        v = V[int(np.argmin(V @ nw))]
+        A = Body(A.spec, A.M, (pw + rng.choice((0.05, 0.2, 0.6)) * nw) - v, 0, None, R=A.R)
+        out.append((A, Bc) if rng.random() < 0.5 else (Bc, A))
+    return out
+
+
+def _vertices_of(A):
+    s = A.spec
+    if s["kind"] == "box":
+        V = np.array([[x * s["a"] / 2, y * s["b"] / 2, z * s["c"] / 2] for x in (-1, 1) for y in (-1, 1) for z in (-1, 1)], dtype=float)
+    else:
+        V = np.array(s["V"], dtype=float)
+    return V @ A.R.T + A.t
+
+
 def general_scenes(rng, n):
     """pairs in general relative orientation (float tier): a polytope or box with a random rotation next to any catalogue body, at
     a gap of 0.03 .. 1.5 units (or a shallow / deep overlap) along a random direction - a vertex or edge facing a curved side makes
